@@ -254,7 +254,9 @@ theorem listAstW_leaves : ∀ (es : ExprList) (items : AstList), listAstW es = s
 
 theorem reInt_mem {t : Bytes} {i : Int} (h : toIntB t = some i) : intAst i ∈ reInt t := by
   simp [reInt, h]
-theorem reFlt_mem {t : Bytes} {f : F64} (h : toFltB t = some f) : fixedAst f ∈ reFlt t := by
+theorem reFlt_mem {t : Bytes} {f : F64} (h : toFltB t = some f) (hs : (t == starQ) = false) :
+    fixedAst f ∈ reFlt t := by
+  rw [toFltB_ne hs] at h
   simp [reFlt, h]
 
 theorem cmpForm_from {x clo chi : Ast} {ls : List Prim} (incl : Bool) (tlo thi : Bytes) (hx : FromLeavesW x ls)
@@ -265,6 +267,21 @@ theorem cmpForm_from {x clo chi : Ast} {ls : List Prim} (incl : Bool) (tlo thi :
   · split
     · exact hx.cmp _ h1
     · exact (hx.cmp _ h1).and (hx.cmp _ h2)
+
+/-- the same, asking for the provenance of the constants that `cmpForm` really prints -/
+theorem cmpForm_from' {x clo chi : Ast} {ls : List Prim} (incl : Bool) (tlo thi : Bytes) (hx : FromLeavesW x ls)
+    (h1 : (tlo == starQ) = false → FromLeavesW clo ls)
+    (h2 : ((tlo == starQ) = true ∨ (thi == starQ) = false) → FromLeavesW chi ls) :
+    FromLeavesW (cmpForm x incl tlo thi clo chi) ls := by
+  unfold cmpForm
+  split
+  · rename_i h; exact hx.cmp _ (h2 (.inl h))
+  · rename_i h
+    have h' : (tlo == starQ) = false := by simpa using h
+    split
+    · exact hx.cmp _ (h1 h')
+    · rename_i g
+      exact (hx.cmp _ (h1 h')).and (hx.cmp _ (h2 (.inr (by simpa using g))))
 
 theorem rangeAstW_from {x a : Ast} {incl : Bool} {qlo qhi : Prim} {ls : List Prim}
     (h : rangeAstW x incl qlo qhi = some a) (hx : FromLeavesW x ls) (h1 : qlo ∈ ls) (h2 : qhi ∈ ls) :
@@ -282,12 +299,25 @@ theorem rangeAstW_from {x a : Ast} {incl : Bool} {qlo qhi : Prim} {ls : List Pri
         (fromLeavesW_const (intAst_leaf i) (by rw [r1]; simp [reInt_mem e1]) h1)
         (fromLeavesW_const (intAst_leaf j) (by rw [r2]; simp [reInt_mem e2]) h2)
     · split at h
-      · rename_i f g hfg
+      · rename_i _ hnone _ f g hfg
         cases h
         obtain ⟨e1, e2⟩ := toFloats_some hfg
-        exact cmpForm_from _ _ _ hx
-          (fromLeavesW_const (fixedAst_leaf f) (by rw [r1]; simp [reFlt_mem e1]) h1)
-          (fromLeavesW_const (fixedAst_leaf g) (by rw [r2]; simp [reFlt_mem e2]) h2)
+        -- in the float layout the printed upper constant never comes from an open end: two open ends are ints
+        have hhi : ((primTextOf qlo == starQ) = true ∨ (primTextOf qhi == starQ) = false) →
+            (primTextOf qhi == starQ) = false := by
+          intro hh
+          rcases hh with hh | hh
+          · cases hs : primTextOf qhi == starQ with
+            | false => rfl
+            | true =>
+              exfalso
+              have : toInts (primTextOf qlo) (primTextOf qhi) = some (0, 0) := by
+                rw [eq_of_beq hh, eq_of_beq hs]; decide
+              rw [this] at hnone; cases hnone
+          · exact hh
+        exact cmpForm_from' _ _ _ hx
+          (fun hs => fromLeavesW_const (fixedAst_leaf f) (by rw [r1]; simp [reFlt_mem e1 hs]) h1)
+          (fun hs => fromLeavesW_const (fixedAst_leaf g) (by rw [r2]; simp [reFlt_mem e2 (hhi hs)]) h2)
       · cases h
         obtain ⟨a1, a2, a3⟩ := astOfPrim_leaf hklo
         obtain ⟨c1, c2, c3⟩ := astOfPrim_leaf hkhi
